@@ -8,7 +8,7 @@ src = sys.argv[1]
 ids = sys.argv[2:] or ["C%02d" % i for i in range(1, 21)]
 # EVAL_WORKERS=N EVAL_WORKER=i: this process handles every N-th patch and uses its own cargo target directory
 NW, WI = int(os.environ.get("EVAL_WORKERS", "1")), int(os.environ.get("EVAL_WORKER", "0"))
-TB = os.path.join(VERIF, ".cache") if NW == 1 else "/tmp/fbr-evaltb-%d" % WI
+TB = os.environ.get("EVAL_TB") or (os.path.join(VERIF, ".cache") if NW == 1 else "/tmp/fbr-evaltb-%d" % WI)
 tmp = tempfile.mkdtemp(prefix="fbr-eval-")
 res = {}
 try:
